@@ -227,6 +227,137 @@ def _isolated_work(job):
     return r
 
 
+# ---------------------------------------------------------------------------------------------
+# package-shaped subject through the real import hook
+def make_package(rng, k):
+    """(init source, {submodule: source}, workload arguments): the module under test is pkg/__init__.py and
+    imports its own submodules (absolute and relative) while the hook is installed."""
+    n_tab = rng.choice([3, 8, 20, 35])
+    tables = ['"""helper submodule, not the module under test"""', "LIMIT = 10", "NAMES = {}"]
+    tables += [f"NAMES[{i}] = {i}" for i in range(n_tab)]
+    tables += ["def fallback():", "    return -1", "def pick(i):", "    if i in NAMES:", "        return NAMES[i]", "    return LIMIT"]
+    helpers = ['"""second helper"""', "from . import _tables", "def twice(x):", "    y = x * 2", "    if y > _tables.LIMIT:",
+               "        y = _tables.LIMIT", "    return y"]
+    imp = rng.choice([f"from subj{k} import _tables\nfrom . import helpers", f"from . import _tables, helpers",
+                      f"import subj{k}._tables as _tables\nfrom .helpers import twice\nfrom . import helpers"])
+    pad = "\n".join(f"C{i} = {i}" for i in range(rng.choice([0, 2, 5])))
+    init = f'"""module under test: a package"""\n{pad}\n{imp}\nSTART = _tables.pick(1)\n' + (
+        "def area(w, h):\n    if w < 0 or h < 0:\n        return _tables.fallback()\n    r = w * h\n"
+        "    if r > _tables.LIMIT:\n        r = helpers.twice(_tables.LIMIT)\n    return r\n"
+        "def total(w, h):\n    t = 0\n    for side in (w, h):\n        t += 2 * side\n    return t\n")
+    return init, {"_tables": "\n".join(tables) + "\n", "helpers": "\n".join(helpers) + "\n"}, rng.choice([(3, 4), (-1, 2), (50, 50)])
+
+
+def _package_work(job):
+    """Import + workload of the package, uninstrumented under sys.monitoring, then through install_import_hook."""
+    import importlib
+    import sys as _sys
+
+    root, k, init, subs, args = job
+    I.setup()
+    import pynguin.configuration as config
+    from pynguin.instrumentation.machinery import install_import_hook
+    from pynguin.instrumentation.tracer import SubjectProperties
+
+    name = f"subj{k}"
+    pkg = os.path.join(root, name)
+    os.makedirs(pkg, exist_ok=True)
+    mut = os.path.join(pkg, "__init__.py")
+    with open(mut, "w") as f:
+        f.write(init)
+    for sub, src in subs.items():
+        with open(os.path.join(pkg, sub + ".py"), "w") as f:
+            f.write(src)
+    _sys.dont_write_bytecode = True
+    _sys.path.insert(0, root)
+
+    def purge():
+        for n in [n for n in _sys.modules if n == name or n.startswith(name + ".")]:
+            del _sys.modules[n]
+        importlib.invalidate_caches()
+
+    def workload(m):
+        return [m.area(*args), m.total(*args)]
+
+    fails = []
+    mon = _sys.monitoring
+    executed = set()
+
+    def on_line(c, line):
+        if c.co_filename == mut:
+            executed.add(line)
+            return None
+        return mon.DISABLE
+
+    purge()
+    mon.use_tool_id(I.TOOL, "c02pkg")
+    mon.register_callback(I.TOOL, mon.events.LINE, on_line)
+    mon.set_events(I.TOOL, mon.events.LINE)
+    try:
+        expected = workload(importlib.import_module(name))
+    finally:
+        mon.set_events(I.TOOL, 0)
+        mon.register_callback(I.TOOL, mon.events.LINE, None)
+        mon.free_tool_id(I.TOOL)
+    purge()
+    sp = SubjectProperties()
+    tr = sp.instrumentation_tracer
+    with install_import_hook(name, sp, coverage_metrics={config.CoverageMetric.LINE},
+                             to_cover_config=config.ToCoverConfiguration()):
+        with tr:
+            module = importlib.import_module(name)
+        tr.init_trace()      # like the executor: fresh trace with the import trace merged in
+        with tr:
+            result = workload(module)
+    trace = tr.get_trace()
+    purge()
+    _sys.path.remove(root)
+    if result != expected:
+        fails.append(["package:behaviour-differs", f"workload returned {result}, uninstrumented {expected}"])
+    foreign = sorted({(os.path.basename(m.file_name), m.line_number) for m in sp.existing_lines.values() if m.file_name != mut})
+    if foreign:
+        fails.append(["package:foreign-lines-registered", f"lines of other files are registered as coverable lines of the module under test "
+                      f"{name}/__init__.py: {foreign[:6]}{' ...' if len(foreign) > 6 else ''}"])
+    unknown = sorted(i for i in trace.covered_line_ids if i not in sp.existing_lines)
+    if unknown:
+        fails.append(["package:covered-id-not-registered", f"covered line ids {unknown[:6]} are not in the registry (it was reset during the import)"])
+    else:
+        reg = {m.line_number for m in sp.existing_lines.values() if m.file_name == mut}
+        reported = set(sp.lineids_to_linenos(trace.covered_line_ids))
+        own = {ln for co in I.code_tree(compile(init, mut, "exec")) for (_s, _e, ln) in co.co_lines() if ln}
+        if reported - own:
+            fails.append(["package:reported-line-not-in-module", f"reported lines {sorted(reported - own)} carry no code of {name}/__init__.py"])
+        if reported != executed & reg:
+            fails.append(["package:lines-differ", f"reported {sorted(reported)}; executed (sys.monitoring, registered) {sorted(executed & reg)}"])
+        missing = executed - reg - {ln for ln in executed if ln == 1}
+        resume_only = set()
+        import dis as _dis
+        for co in I.code_tree(compile(init, mut, "exec")):
+            by = {}
+            for ins in _dis.get_instructions(co):
+                if ins.positions is not None and ins.positions.lineno is not None:
+                    by.setdefault(ins.positions.lineno, set()).add(ins.opname)
+            resume_only |= {ln for ln, ops in by.items() if ops <= {"RESUME", "END_FOR"}}
+        if executed - reg - resume_only:
+            fails.append(["package:executed-not-registered", f"executed lines {sorted(executed - reg - resume_only)} of the module under test are not registered"])
+    return {"fails": fails, "program": {"init": init, "subs": subs, "args": list(args), "k": k}, "lines": len(executed)}
+
+
+def package_leg(ctx, scratch):
+    n = 3 if ctx.quick else 12
+    for k in range(n):
+        init, subs, args = make_package(ctx.rng, k)
+        r = I.isolated(_package_work, (str(scratch / f"pk{k}"), k, init, subs, args), timeout=600)
+        if "fails" not in r:
+            ctx.count("S:package-inconclusive:" + str(r.get("inconclusive") or r.get("crash") or r.get("harness_error", "?"))[:40])
+            if "harness_error" in r:
+                ctx.fail("harness:package", r["harness_error"] + r.get("tb", ""), {"init": init})
+            continue
+        ctx.count("S:package-runs")
+        for sig, msg in r["fails"]:
+            ctx.fail(sig, msg, {"package": r["program"]})
+
+
 def run(ctx: vlib.Ctx):
     I.setup()
     ctx.digest_sources(SRC)
@@ -277,6 +408,7 @@ def run(ctx: vlib.Ctx):
             src, specs = progs[r["n"]][0], r.get("specs", progs[r["n"]][1])
             ctx.fail(sig, msg, {"program": src, "input": specs[k] if k is not None and k < len(specs) else None, "inputs": specs})
     ctx.sample({"program": progs[-1][0][len(G.PRELUDE):][:500], "case": cases[-1][:400] if cases else None})
+    package_leg(ctx, scratch)
     ctx.leg("S", failures=n_or, programs=len(progs))
     bad = ctx.run_cases("C02_blocks", "From Verif Require Import Models.C02.", "C02.case", "C02.check_case", cases, shard=300)
     if bad:
@@ -298,6 +430,12 @@ def run(ctx: vlib.Ctx):
 def replay(ctx, path):
     I.setup()
     d = json.loads(open(path).read())["replay"]
+    if "package" in d:
+        pk = d["package"]
+        r = I.isolated(_package_work, (str(ctx.mkscratch() / "pk_replay"), pk.get("k", 0), pk["init"], pk["subs"], tuple(pk["args"])))
+        print(pk["init"])
+        print("failures:", r.get("fails", r))
+        return 0
     scratch = ctx.mkscratch()
     r = _isolated_work((0, d["program"], str(scratch / "replay.py"), d.get("inputs") or ([d["input"]] if d.get("input") else [])))
     print(d["program"])
